@@ -4,7 +4,7 @@ CFG = dict(
     level="proof",
     lean_modules=["ElysModel.Props.C15"],
     props_files=["ElysModel/Props/C15.lean"],
-    runs=[scn_run("c15"), hist_run()],
+    runs=[scn_run("c15"), hist_run(), hist_run(nq=200, sq=6, st=10, focus="cm.")],
     rule=HIST_RULE + "; plus the directed burner scenario (mode scn, prefix c15)",
     trusted_base=COMMON_TB + ["mint/burn sites are the x/bank coinbase/burn events of real blocks, classified by (module account, denom, enclosing message kind)"],
     assumptions=["IBC vouchers, x/mint inflation, slashing and governance burns do not occur in the generated worlds",
